@@ -34,12 +34,22 @@ LAYERS = {
     # name: (rust type, fixed header size, unwind)
     "eth": ("Ethernet", 14, 14),
     "vlan": ("Vlan", 4, 14),
-    "ipv4": ("Ipv4Packet", 20, 44),   # options loop: i in 20..60 -> 40 iterations (+ margin)
+    "ipv4": ("Ipv4Packet", 20, 14),   # + options loop, bounded per stamp by the buffer (see unw())
     "ipv6": ("Ipv6Packet", 40, 14),
     "udp": ("Udp", 8, 14),
     "tcp": ("Tcp", 20, 14),
 }
 TCPW = {"tcp8": "TcpW<8>", "tcp9": "TcpW<9>", "tcp12": "TcpW<12>"}
+
+
+def unwind_of(lname, l, off):
+    """Unwind bound of a stamp. IPv4 copies 4*IHL-20 option bytes in a loop; the parser first
+    checks that they fit in the buffer, so the trip count is bounded by L-off-20 (<= 40).
+    Unwinding assertions stay on: a bound that is too small is reported, never silently cut."""
+    base = LAYERS[lname][2]
+    if lname == "ipv4":
+        return max(base, min(40, max(0, l - off - 20)) + 3)
+    return base
 
 
 def _lens_full(hsz, off):
@@ -70,7 +80,7 @@ def layer_harnesses() -> List[H]:
         for tier, lst in (("quick", quick), ("thorough", thorough)):
             for (l, off) in lst:
                 add(H(f"c16_{lname}_dec_l{l}_o{off}", "C16", tier, f"dec::<{ty}, {l}>({off})",
-                      f"{lname}_dec", f"{l} buffer bytes ({8*l} bits), header at offset {off}", unw))
+                      f"{lname}_dec", f"{l} buffer bytes ({8*l} bits), header at offset {off}", unwind_of(lname, l, off)))
         # ---------------- C16 payload offset
         po_q = [(hsz + 4, 0)]
         po_t = [(hsz, 0), (14 + hsz + 8, 14)]
@@ -80,7 +90,7 @@ def layer_harnesses() -> List[H]:
         for tier, lst in (("quick", po_q), ("thorough", po_t)):
             for (l, off) in lst:
                 add(H(f"c16_{lname}_payoff_l{l}_o{off}", "C16", tier, f"payoff::<{ty}, {l}>({off})",
-                      f"{lname}_payoff", f"{l} buffer bytes, header at offset {off}", unw))
+                      f"{lname}_payoff", f"{l} buffer bytes, header at offset {off}", unwind_of(lname, l, off)))
         # ---------------- C15 SER(X): serialise(parse(raw)) == raw
         s_q = [(hsz, 0), (hsz + 4, 0)]
         s_t = [(l, 0) for l in range(hsz, hsz + 7)] + [(14 + hsz, 14), (14 + hsz + 5, 14), (18 + hsz + 3, 18)]
@@ -93,7 +103,7 @@ def layer_harnesses() -> List[H]:
         for tier, lst in (("quick", s_q), ("thorough", s_t)):
             for (l, off) in lst:
                 add(H(f"c15_{lname}_ser_l{l}_o{off}", "C15", tier, f"ser::<{ty}, {l}>({off})",
-                      f"{lname}_ser", f"{l} buffer bytes, header at offset {off}, 1 symbolic compare index", unw))
+                      f"{lname}_ser", f"{l} buffer bytes, header at offset {off}, 1 symbolic compare index", unwind_of(lname, l, off)))
 
     # ---------------- C16 TCP flags: three RFC readings, any-of
     for alt, ty in TCPW.items():
@@ -151,15 +161,16 @@ def setter_harnesses() -> List[H]:
         tier = "quick" if (lname, prop) in QUICK_SETTERS else "thorough"
         # buffer: header + 4 payload bytes (IPv4: 24 bytes, so IHL 5 and 6 both fit)
         l = hsz + 4
+        pin = 0x45 if lname == "ipv4" else -1
         call = (f"set::<{ty}, {l}>(0, Field {{ k: {k}, bo: {bo}, w: {w} }}, {al}, "
-                f"|x, v| x.{meth}(v), {str(boolv).lower()})")
+                f"|x, v| x.{meth}(v), {str(boolv).lower()}, {pin})")
         out.append(H(f"c17_{lname}_set_{prop}", "C17", tier, call, f"{lname}_set_{prop}",
-                     f"{l} buffer bytes, assigned value any i64, 1 symbolic compare index", unw, timeout=600))
+                     f"{l} buffer bytes, assigned value any i64, 1 symbolic compare index", unwind_of(lname, l, 0), timeout=600))
     # TCP flags setter under the three RFC readings (any-of, same group rule as C16)
     for alt, ty in TCPW.items():
         wbits = int(alt[3:])
         call = (f"set::<{ty}, 24>(0, Field {{ k: 6, bo: {112 - wbits}, w: {wbits} }}, MAXF, "
-                f"|x, v| x.0.set_flags(v), false)")
+                f"|x, v| x.0.set_flags(v), false, -1)")
         out.append(H(f"c17_{alt}_set_flags", "C17", "quick", call, "tcp_set_flags",
                      "24 buffer bytes, assigned value any i64, 1 symbolic compare index", 14,
                      alt_group="tcp_flags_reading", alt=alt, timeout=600))
